@@ -34,6 +34,10 @@ enum HashFn {
     NearEnd(u32, u64),
     /// two clusters: half of the texts home at the last slot, half `gap` slots before it
     TwoClusters(u32, u64),
+    /// the low `k` bits are zero (k up to 48), the rest depends on the text: whatever a table derives
+    /// from the low half of a hash - a tag, a bucket, a fingerprint - is the same trivial value for
+    /// every text, the all-zero one
+    LowZero(u32),
 }
 
 fn hash_with(f: HashFn, text: &str) -> u64 {
@@ -47,6 +51,7 @@ fn hash_with(f: HashFn, text: &str) -> u64 {
             let mask = (1u64 << k) - 1;
             (h << k) | (mask.wrapping_sub((h >> 40) % spread) & mask)
         }
+        HashFn::LowZero(k) => fnv_str(text) << k,
         HashFn::TwoClusters(k, gap) => {
             let h = fnv_str(text);
             let mask = (1u64 << k) - 1;
@@ -402,7 +407,8 @@ fn table_ops(family: &str, bytes: &[u8]) -> (Vec<(usize, bool)>, HashFn) {
         }
         _ => {
             let mut rd = Rd::new(bytes, 1000);
-            let f = match rd.below(9) {
+            let f = match rd.below(10) {
+                9 => HashFn::LowZero([8u32, 16, 32, 33, 48][rd.below(5)]),
                 0 => HashFn::Constant,
                 1 => HashFn::LowBits(2 + rd.below(12) as u32),
                 2 => HashFn::RealHighOnly,
@@ -446,7 +452,7 @@ impl Property for C11 {
     }
 
     fn rule(&self) -> String {
-        "cases: (table_exhaustive) every history of up to 6 intern/lookup operations over 4 texts under 3 hash functions (all texts one hash; shared low bits; the real hash) — thorough enumerates all of them, quick those whose last two operations are the simplest; (table_random) histories of up to 3x each growth point (4..4096 slots) on the interpreter's own intern-table type driven through a hook with harness-chosen hash functions: identical full hashes, identical low k bits (long probe chains, wrap-around), low bits that place every text within 2-91 slots of the end of the table or in two clusters there (dense runs wrapping around the end, re-inserted by the next growth), real hashes with the low 12 bits cleared, real hashes; (api) 200-3200 calls of Vm::new_gc_obj_string over multi-byte texts, revisits, and texts found by search to collide in the low 12 bits of the real hash; (language) the same contents (3-4100 bytes, lengths around multiples of 8, beyond 32, and around 256, 1024 and 4096) built by two of 16 routes (literal, escapes, +, interpolation, slices and split pieces that start at every byte offset 0-7 inside their source string, replace, String.from, from_utf8, from_code_points, from_ascii, iteration; a quarter of the cases use the text of a number, boolean or nil produced by String.from, by an interpolation consisting of that one expression, nested or inside a lambda, by concatenation, slicing or written out) with 50-3000 strings of churn in between and a one-byte near miss, compared with ==, used as map keys alone and inside tuples, names (global, method, field, module attribute) resolved across separately compiled snippets on one interpreter, and the messages of two caught built-in errors (equal exactly when their bytes are, as values and as map keys); (api) additionally holds 1-40 strings as roots across Vm::reset() and requires the same bytes built afterwards to be the very objects held. Oracle: intern-set model keyed by (hash, bytes): same key <=> same entry, new key <=> new distinct entry, every entry still found after every growth; pointer identity <=> byte equality at the API; outputs known by construction at language level. Non-trivial: the history crosses a growth with a collision chain of >=3 entries, or any api/language case; distinct by the case bytes.".into()
+        "cases: (table_exhaustive) every history of up to 6 intern/lookup operations over 4 texts under 3 hash functions (all texts one hash; shared low bits; the real hash) — thorough enumerates all of them, quick those whose last two operations are the simplest; (table_random) histories of up to 3x each growth point (4..4096 slots) on the interpreter's own intern-table type driven through a hook with harness-chosen hash functions: identical full hashes, identical low k bits (long probe chains, wrap-around), low bits that place every text within 2-91 slots of the end of the table or in two clusters there (dense runs wrapping around the end, re-inserted by the next growth), real hashes with the low 12 bits cleared, hashes whose low 8-48 bits are all zero, real hashes; (api) 200-3200 calls of Vm::new_gc_obj_string over multi-byte texts, revisits, and texts found by search to collide in the low 12 bits of the real hash; (language) the same contents (3-4100 bytes, lengths around multiples of 8, beyond 32, and around 256, 1024 and 4096) built by two of 16 routes (literal, escapes, +, interpolation, slices and split pieces that start at every byte offset 0-7 inside their source string, replace, String.from, from_utf8, from_code_points, from_ascii, iteration; a quarter of the cases use the text of a number, boolean or nil produced by String.from, by an interpolation consisting of that one expression, nested or inside a lambda, by concatenation, slicing or written out) with 50-3000 strings of churn in between and a one-byte near miss, compared with ==, used as map keys alone and inside tuples, names (global, method, field, module attribute) resolved across separately compiled snippets on one interpreter, and the messages of two caught built-in errors (equal exactly when their bytes are, as values and as map keys); (api) additionally holds 1-40 strings as roots across Vm::reset() and requires the same bytes built afterwards to be the very objects held. Oracle: intern-set model keyed by (hash, bytes): same key <=> same entry, new key <=> new distinct entry, every entry still found after every growth; pointer identity <=> byte equality at the API; outputs known by construction at language level. Non-trivial: the history crosses a growth with a collision chain of >=3 entries, or any api/language case; distinct by the case bytes.".into()
     }
 
     fn render(&self, family: &str, bytes: &[u8]) -> String {
